@@ -135,6 +135,30 @@ RealParameters ==
 
 ASSUME RealParameters
 
+\* call histories: what the answer to the last call may depend on (checked once)
+HCall(op, t, e, cc, pfx, net) == [op |-> op, t |-> t, e |-> e, c |-> cc, pfx |-> pfx, net |-> net]
+HA(t, e, cc) == HCall("address", t, e, cc, <<>>, "")
+HistoryRules ==
+    /\ HistNet("bitcoin", <<HA("", "", "")>>) = "bitcoin"
+    /\ HistNet("bitcoin", <<HA("", "", ""), HCall("network_change", "", "", "", <<>>, "litecoin"), HA("", "", "")>>) = "litecoin"
+    /\ HistNet("bitcoin", <<HCall("network_change", "", "", "", <<>>, "litecoin"),
+                            HCall("network_change", "", "", "", <<>>, "dogecoin"), HA("", "", "")>>) = "dogecoin"
+    \* both given: exactly that; an HD key without arguments: its witness type; otherwise a standard key address
+    /\ HistCandidates("key", "", TRUE, <<HA("p2pkh", "base58", ""), HA("p2wpkh", "bech32", "")>>) = {<<"p2wpkh", TRUE>>}
+    /\ HistCandidates("hdkey", "p2sh-segwit", TRUE, <<HA("p2pkh", "base58", "F"), HA("", "", "T")>>) = {<<"p2sh_p2wpkh", TRUE>>}
+    /\ HistCandidates("key", "", TRUE, <<HA("p2sh_p2wpkh", "base58", ""), HA("", "", "")>>)
+          = {<<"p2pkh", TRUE>>, <<"p2wpkh", TRUE>>, <<"p2sh_p2wpkh", TRUE>>}
+    /\ HistCandidates("key", "", TRUE, <<HCall("address_uncompressed", "", "", "", <<>>, ""), HA("", "bech32", "")>>)
+          = {<<"p2wpkh", TRUE>>, <<"p2wpkh", FALSE>>}
+    /\ HistComp(TRUE, <<HA("", "", "F"), HCall("address_uncompressed", "", "", "", <<>>, "")>>) = {FALSE}
+    \* a prefix given earlier plays no role; one given now replaces the network's
+    /\ AddrStrP(ToyO, "bitcoin", Ret(PKH(Rep(7, 20))), <<>>) = AddrStr(ToyO, "bitcoin", Ret(PKH(Rep(7, 20))))
+    /\ AddrStrP(ToyO, "bitcoin", Ret(PKH(Rep(7, 20))), <<48>>).v
+          = B58Encode(<<48>> \o Rep(7, 20) \o Take(ToyO("sha256d", <<48>> \o Rep(7, 20)), 4))
+    /\ AddrStrP(ToyO, "bitcoin", Ret(Wit(0, Rep(7, 20))), <<108, 116, 99>>) = AddrStr(ToyO, "litecoin", Ret(Wit(0, Rep(7, 20))))
+    /\ AddrStrP(ToyO, "bitcoin", Ret(PKH(Rep(7, 20))), <<48>>) = AddrStr(ToyO, "litecoin", Ret(PKH(Rep(7, 20))))
+ASSUME HistoryRules
+
 \* addresses: the string decodes to the destination, in the network asked for, and the destination's locking script
 \* is the standard script of the type asked for; nested types wrap the version-0 witness script; the checksum
 \* constant follows the witness version (AddrScript!SegwitDecode refuses the wrong one)
